@@ -54,3 +54,168 @@ Proof.
   intros t Ht. apply parse_transform_ok_len in Ht.
   apply good_bind_ret. eapply good_le; [apply IH; lia | lia].
 Qed.
+
+Lemma new_proposal_good num proto spi ts : good 0 (new_proposal num proto spi ts).
+Proof. unfold new_proposal. destruct (_ =? _)%nat; [apply good_raise_is | apply good_ret]. Qed.
+
+Lemma parse_proposal_good data : good (N.of_nat (length data)) (parse_proposal data).
+Proof.
+  unfold parse_proposal. unpack_step. destruct (_ <=? _)%nat eqn:Hsz; [| apply good_raise_is].
+  cbn [fmt_size] in Hsz.
+  set (off := (4 + _)%nat).
+  apply good_bind_le with (a := N.of_nat (length data - off)) (b := 0%N); [apply transforms_loop_good; lia | | lia].
+  intros ts _. destruct (negb _); [apply good_raise_is | apply new_proposal_good].
+Qed.
+
+Lemma parse_proposal_ok_len data p : fst (parse_proposal data) = Ok p -> (4 <= length data)%nat.
+Proof.
+  unfold parse_proposal. unpack_step. destruct (_ <=? _)%nat eqn:E; [cbn [fmt_size] in E; lia | discriminate].
+Qed.
+
+Lemma proposals_loop_good fuel data off :
+  (length data - off < fuel)%nat ->
+  good (N.of_nat (length data - off)) (proposals_loop fuel data off).
+Proof.
+  revert off. induction fuel as [|f IH]; intros off Hf; [lia|].
+  cbn [proposals_loop]. destruct (off <? length data)%nat eqn:Hlt; [| apply good_ret].
+  apply good_tick_le with (b := (N.of_nat (length data - off) - 1)%N); [| lia].
+  unpack_step. destruct (off + _ <=? length data)%nat eqn:Hsz; [| apply good_raise_is].
+  cbn [fmt_size] in Hsz.
+  set (len := N.to_nat _).
+  pose proof (slice_len_le data (off + 4) (off + len)) as Hs1.
+  pose proof (slice_len_le2 data (off + 4) (off + len)) as Hs2.
+  apply good_bind_le with (a := N.of_nat (length (slice data (off + 4) (off + len))))
+                          (b := (N.of_nat (length data - off) - 1 - N.of_nat (length (slice data (off + 4) (off + len))))%N);
+    [apply parse_proposal_good | | lia].
+  intros t Ht. apply parse_proposal_ok_len in Ht.
+  apply good_bind_ret. eapply good_le; [apply IH; lia | lia].
+Qed.
+
+Lemma parse_sa_good data : good (N.of_nat (length data)) (parse_sa data).
+Proof.
+  unfold parse_sa.
+  apply good_bind_le with (a := N.of_nat (length data - 0)) (b := 0%N); [apply proposals_loop_good; lia | | lia].
+  intros ps _. unfold new_sa. destruct (_ =? _)%nat; [apply good_raise_is | apply good_ret].
+Qed.
+
+(** the payloads without loops *)
+Lemma parse_ke_good data : good 0 (parse_ke data).
+Proof. unfold parse_ke. unpack_step. destruct (_ <=? _)%nat; [apply good_ret | apply good_raise_is]. Qed.
+Lemma parse_id_good i data : good 0 (parse_id i data).
+Proof. unfold parse_id. unpack_step. destruct (_ <=? _)%nat; [apply good_ret | apply good_raise_is]. Qed.
+Lemma parse_auth_good data : good 0 (parse_auth data).
+Proof. unfold parse_auth. unpack_step. destruct (_ <=? _)%nat; [apply good_ret | apply good_raise_is]. Qed.
+Lemma parse_notify_good data : good 0 (parse_notify data).
+Proof. unfold parse_notify. unpack_step. destruct (_ <=? _)%nat; [apply good_ret | apply good_raise_is]. Qed.
+Lemma new_nonce_good data : good 0 (new_nonce data).
+Proof. unfold new_nonce. destruct (nonce_length_bad _); [apply good_raise_is | apply good_ret]. Qed.
+Lemma new_vendor_good data : good 0 (new_vendor data).
+Proof. unfold new_vendor. destruct (_ =? _)%nat; [apply good_raise_is | apply good_ret]. Qed.
+
+Lemma delete_spis_good n data off size : good (N.of_nat n) (delete_spis n data off size).
+Proof.
+  revert off. induction n as [|n IH]; intros off; [apply good_ret|].
+  cbn [delete_spis]. apply good_tick_le with (b := N.of_nat n); [| lia].
+  apply good_bind_ret. apply IH.
+Qed.
+
+Lemma wf_firstn n (l : bytes) : wf_bytes l -> wf_bytes (firstn n l).
+Proof.
+  unfold wf_bytes. revert l. induction n as [|n IH]; intros l H; [constructor|].
+  destruct l; [constructor|]. inversion H; subst. cbn. constructor; auto.
+Qed.
+Lemma wf_skipn n (l : bytes) : wf_bytes l -> wf_bytes (skipn n l).
+Proof.
+  unfold wf_bytes. revert l. induction n as [|n IH]; intros l H; [exact H|].
+  destruct l; [constructor|]. inversion H; subst. cbn. auto.
+Qed.
+Lemma wf_slice (l : bytes) a b : wf_bytes l -> wf_bytes (slice l a b).
+Proof. intros. unfold slice. apply wf_firstn, wf_skipn. assumption. Qed.
+
+Lemma be_decode_2_bound (l : bytes) : wf_bytes l -> (be_decode (firstn 2 l) < 65536)%N.
+Proof.
+  intros Hwf. pose proof (be_decode_bound _ (wf_firstn 2 l Hwf)) as Hb. rewrite firstn_length in Hb.
+  assert (256 ^ N.of_nat (Nat.min 2 (length l)) <= 65536)%N.
+  { destruct (Nat.min 2 (length l)) as [|[|[|k]]] eqn:E; try (cbn; lia). }
+  lia.
+Qed.
+
+Lemma parse_delete_good data : goodP (wf_bytes data) 65535 (parse_delete data).
+Proof.
+  unfold parse_delete. unpack_step. destruct (_ <=? _)%nat; [| apply goodP_of_good, good_raise_is].
+  set (n := be_decode _).
+  apply goodP_bind_ret. split; [apply delete_spis_good|].
+  intros Hwf. pose proof (delete_spis_good (N.to_nat n) data 4 (be_decode (firstn 1 (skipn 1 (skipn 0 data))))) as [_ Hb].
+  assert (n < 65536)%N by (apply be_decode_2_bound; repeat apply wf_skipn; exact Hwf).
+  lia.
+Qed.
+
+Lemma ip_address_good b : good 0 (ip_address b).
+Proof. unfold ip_address. destruct (_ || _). apply good_ret. Abort.
+
+(** TrafficSelector.parse: InvalidSyntax, or a selector; ip_address never sees a length other than 4 or 16 *)
+Lemma ts_addr_len_cases ty : ts_addr_len_parse ty = 4%N \/ ts_addr_len_parse ty = 16%N.
+Proof. unfold ts_addr_len_parse. destruct (N.eqb _ _); auto. Qed.
+
+Lemma ip_address_ok b : (length b = 4 \/ length b = 16)%nat -> ip_address b = ret b.
+Proof. unfold ip_address. intros [H|H]; rewrite H; reflexivity. Qed.
+
+Lemma parse_tsel_good data : good 0 (parse_tsel data).
+Proof.
+  unfold parse_tsel.
+  rewrite bind_unpack_plain.
+  cbv [fmt_TrafficSelector_parse_0 unpack_fields].
+  destruct (0 + fmt_size _ <=? length data)%nat eqn:H1; [| apply good_raise_is].
+  cbn [fmt_size] in H1.
+  rewrite bind_unpack_plain.
+  set (ty := be_decode (firstn 1 (skipn 0 data))).
+  set (n := N.to_nat (ts_addr_len_parse ty)).
+  assert (Hn : n = 4%nat \/ n = 16%nat) by (destruct (ts_addr_len_cases ty) as [E|E]; unfold n; rewrite E; [left | right]; reflexivity).
+  cbv [fmt_TrafficSelector_parse_1 unpack_fields].
+  destruct (ts_addr_offset + fmt_size _ <=? length data)%nat eqn:H2; [| apply good_raise_is].
+  cbv [ts_addr_offset] in *. cbn [fmt_size] in H2.
+  unfold except_raise. cbn [ret fst snd]. rewrite bind_ret_l. cbn [ts_saddr ts_eaddr ts_type ts_proto ts_sport ts_eport].
+  rewrite !ip_address_ok.
+  - rewrite !bind_ret_l. apply good_ret.
+  - rewrite firstn_length, !skipn_length. lia.
+  - rewrite firstn_length, !skipn_length. lia.
+Qed.
+
+Lemma parse_tsel_ok_len data t : fst (parse_tsel data) = Ok t -> (1 <= length data)%nat.
+Proof.
+  unfold parse_tsel. rewrite bind_unpack_plain.
+  destruct (0 + fmt_size _ <=? length data)%nat eqn:H1; [cbn [fmt_size fmt_TrafficSelector_parse_0] in H1; lia | discriminate].
+Qed.
+
+Lemma tsels_loop_good fuel data off :
+  (length data - off < fuel)%nat ->
+  good (N.of_nat (length data - off)) (tsels_loop fuel data off).
+Proof.
+  revert off. induction fuel as [|f IH]; intros off Hf; [lia|].
+  cbn [tsels_loop]. destruct (off <? length data)%nat eqn:Hlt; [| apply good_ret].
+  apply good_tick_le with (b := (N.of_nat (length data - off) - 1)%N); [| lia].
+  unpack_step. destruct (off + _ <=? length data)%nat eqn:Hsz; [| apply good_raise_is].
+  cbn [fmt_size] in Hsz.
+  set (len := N.to_nat _).
+  pose proof (slice_len_le data off (off + len)) as Hs1.
+  apply good_bind_le with (a := 0%N) (b := (N.of_nat (length data - off) - 1)%N); [apply parse_tsel_good | | lia].
+  intros t Ht. apply parse_tsel_ok_len in Ht.
+  apply good_bind_ret. eapply good_le; [apply IH; lia | lia].
+Qed.
+
+Lemma parse_ts_good i data : good (N.of_nat (length data)) (parse_ts i data).
+Proof.
+  unfold parse_ts. unpack_step. destruct (_ <=? _)%nat eqn:Hsz; [| apply good_raise_is].
+  apply good_bind_le with (a := N.of_nat (length data - 4)) (b := 0%N); [apply tsels_loop_good; lia | | lia].
+  intros ts _. destruct (negb _); [apply good_raise_is | apply good_ret].
+Qed.
+
+Lemma parse_body_good c data : goodP (wf_bytes data) (N.of_nat (length data) + 65535) (parse_body c data).
+Proof.
+  destruct c; cbn [parse_body];
+    try (apply goodP_of_good; eapply good_le;
+         [first [apply parse_sa_good | apply parse_ke_good | apply parse_id_good | apply parse_auth_good
+                | apply new_nonce_good | apply new_vendor_good | apply parse_notify_good | apply parse_ts_good
+                | apply good_ret] | lia]).
+  eapply goodP_le; [apply parse_delete_good | lia].
+Qed.
